@@ -1,7 +1,7 @@
 (** C07 — concurrent requests cause one refresh; no refresh token is presented twice. *)
 From Coq Require Import ZArith NArith Bool List.
 From WW Require Import Gen.Params Base.AMap Model.SessionTime Model.Machine Model.Entry
-     Proofs.MachineP Proofs.MachineRefute Proofs.MachineRtP.
+     Proofs.MachineP Proofs.MachineRefute Proofs.MachineRtP Proofs.MachineRetryP.
 Import ListNotations.
 Open Scope Z_scope.
 
@@ -263,3 +263,41 @@ Theorem c07_stalled_refresher_nonrotating_provider :
   w_idp_log (m_w (run_events c (init_state 3600) cooldown_stalled_nonrotating_schedule)) = [IdpGrant 1 true; IdpGrant 1 true].
 Proof. exact cooldown_stalled_nonrotating. Qed.
 Print Assumptions c07_stalled_refresher_nonrotating_provider.
+
+(** One request and the provider ("apart from retries of a request the provider answered with a server error").
+    [request_obs c t ws] are the observations of ONE request whose steps are taken in arbitrary worlds (whatever other
+    requests, replicas, the clock and the provider did in between) under arbitrary faults [ws]. If the request presents a
+    refresh token to the provider ([ObIdp rt1 r1]) and later presents one again, the first presentation was answered with
+    a server error ([r1 = 5]): after tokens, a 4xx, any other failure of the call ([-1]: the connection was refused or
+    lost - with or without the provider having processed the grant) or a cancellation, the request stores / unlocks /
+    finishes and never reaches the provider again. *)
+Theorem c07_one_request_represents_only_after_5xx : forall c t ws l1 l2 rt1 r1 rt2 r2,
+  request_obs c t ws = l1 ++ ObIdp rt1 r1 :: l2 -> In (ObIdp rt2 r2) l2 -> r1 = 5.
+Proof. intros c t ws. exact (represent_only_after_5xx c ws t). Qed.
+Print Assumptions c07_one_request_represents_only_after_5xx.
+
+(** ... and a server-error answer is only ever observed under the 5xx fault of an uncancelled request at the provider,
+    presenting the refresh token of the record it re-read under the lock. *)
+Theorem c07_provider_observation : forall c w t f rt res,
+  snd (step c w t f) = ObIdp rt res ->
+  (exists old cur tok start, t_phase t = PIdp old cur tok start /\ rt = sd_rt cur) /\
+  (res = 5 -> f = FIdp5xx /\ t_cancel t = false) /\
+  (res <> 5 -> past_provider (t_phase (snd (fst (step c w t f))))).
+Proof. exact step_idp_obs. Qed.
+Print Assumptions c07_provider_observation.
+
+(** Non-vacuity: at the provider, a 5xx answer is followed by a second presentation of the same value; a lost connection is not. *)
+Example c07_represent_example :
+  match alookup 1%N (m_ts at_provider_state) with
+  | Some t =>
+    let w := m_w at_provider_state in
+    map (fun o => match o with ObIdp rt r => Some (rt, r) | _ => None end)
+        (request_obs (cfg_redis true true true) t [(w, FIdp5xx); (w, FNone); (w, FNone); (w, FNone)])
+      = [Some (1%N, 5); Some (1%N, 1); None; None] /\
+    map (fun o => match o with ObIdp rt r => Some (rt, r) | _ => None end)
+        (request_obs (cfg_redis true true true) t [(w, FIdpErr); (w, FNone); (w, FNone)])
+      = [Some (1%N, -1); None; None]
+  | None => False
+  end.
+Proof. exact represent_example. Qed.
+Print Assumptions c07_represent_example.
